@@ -82,10 +82,9 @@ func synthShape(r *rand.Rand, routed, qdf, nch int) plonkShape {
 		}
 	}
 	s.NumConstants = 2 + 2
-	kk := uint64(1)
+	// coset shifts: arbitrary distinct-looking constants (a description is free to choose them)
 	for i := 0; i < routed; i++ {
-		s.KIs = append(s.KIs, kk)
-		kk = ref.Mul(kk, 7)
+		s.KIs = append(s.KIs, 2+randGL(r)%(P-3))
 	}
 	s.NumGateConstraints = 12
 	return s
@@ -275,7 +274,7 @@ func init() {
 					name string
 					f    func(p *plonkInstance)
 				}
-				bumpE := func(e *ref.E) { e[r.Intn(2)] = ref.Add(e[r.Intn(2)], 1+uint64(r.Intn(5))); e[0] = ref.Add(e[0], 1) }
+				bumpE := func(e *ref.E) { k := r.Intn(2); e[k] = ref.Add(e[k], 1+uint64(r.Intn(5))) } // exactly one coordinate
 				perts := []pert{
 					{"constant", func(p *plonkInstance) { bumpE(&p.Open.Constants[r.Intn(len(p.Open.Constants))]) }},
 					{"sigma", func(p *plonkInstance) { bumpE(&p.Open.PlonkSigmas[r.Intn(len(p.Open.PlonkSigmas))]) }},
